@@ -1,5 +1,6 @@
 import EdsModel.Kernel
 import EdsModel.Defaults
+import EdsModel.PodUtil
 /-
   EdsModel.GoPrelude — what the Go→Lean translator (tools/extract/gotolean.go) assumes of its target:
   the record types that exist only on the Go side of the translated functions, and the library
@@ -113,18 +114,40 @@ structure GPod where
   status : GPodStatus
   /-- read by `compareSpecTemplateMD5Hash` (group Status) only -/
   annotations : SMap := []
+  /-- `spec.containers` as `harness/canon` reads them (name, resources): read by the library comparison
+  `compareWithExtendedDaemonsetSettingOverwrite` (group CanaryStatus) only -/
+  containers : List Container := []
   deriving DecidableEq, Repr, Inhabited
 
-/-! ### group Status: `strategy.Parameters` / `strategy.Result` as far as `manageCanaryPodFailures` reads and
-writes them, and `reconcile.Result`. -/
+/-! ### group Status / CanaryStatus: `strategy.Parameters` / `strategy.Result` as far as `manageCanaryPodFailures` and
+`manageCanaryStatus` read and write them, and `reconcile.Result`.
 
-/-- `strategy.Parameters` (controllers/extendeddaemonsetreplicaset/strategy/type.go): `Strategy`, `NewStatus`. -/
+`*NodeItem` is `Option NodeItem` (the model's record: a `NodeItem` is built by `NewNodeItem` from a listed node, its
+`Node` pointer is never nil and is not represented as a pointer).  The two Go maps are association lists
+(`Go.mapFind`): `NodeByName : map[string]*NodeItem`, and `PodByNodeName : map[*NodeItem]*corev1.Pod`, whose keys Go
+compares by pointer identity — here by `Go.nodeItemKey` (the node's name; `nil` equals only `nil`), which is pointer
+identity exactly when the node items of distinct names are distinct objects and every key is the `NodeByName` entry
+of its name (what `FilterAndMapPodsByNode` builds; the bridges state it as a hypothesis). -/
+
+/-- `reconcile.Result` (controller-runtime). -/
+structure GReconcileResult where
+  requeue : Bool
+  requeueAfter : Dur
+  deriving DecidableEq, Repr, Inhabited
+
+/-- `strategy.Parameters` (controllers/extendeddaemonsetreplicaset/strategy/type.go).  `manageCanaryPodFailures` reads
+`Strategy` and `NewStatus` only; the other fields are read by `manageCanaryStatus` / `compareCurrentPodWithNewPod`. -/
 structure GParams where
   strategy : Option Strategy
   newStatus : Option ERSStatus
+  edsName : String := ""
+  replicaset : Option ERS := none
+  canaryNodes : List String := []
+  nodeByName : List (String × Option NodeItem) := []
+  podByNodeName : List (Option NodeItem × Option GPod) := []
   deriving DecidableEq, Repr, Inhabited
 
-/-- `strategy.Result`: the flags and the status under construction. -/
+/-- `strategy.Result`: the flags, the status under construction, the pods to create / delete and the requeue request. -/
 structure GResult where
   isFrozen : Bool
   isPaused : Bool
@@ -133,12 +156,9 @@ structure GResult where
   isFailed : Bool
   failedReason : String
   newStatus : Option ERSStatus
-  deriving DecidableEq, Repr, Inhabited
-
-/-- `reconcile.Result` (controller-runtime). -/
-structure GReconcileResult where
-  requeue : Bool
-  requeueAfter : Dur
+  podsToCreate : List (Option NodeItem) := []
+  podsToDelete : List (Option NodeItem) := []
+  result : GReconcileResult := { requeue := false, requeueAfter := 0 }
   deriving DecidableEq, Repr, Inhabited
 
 namespace Go
@@ -157,6 +177,42 @@ def setIndex {α} (l : List α) (i : Int) (v : α) : Option (List α) :=
 one; `nilSlice` (a parameter of the translated function, universally quantified in the bridge
 theorems) says which of the two an empty list stands for. -/
 def sliceIsNil {α} (nilSlice : Bool) (l : List α) : Bool := nilSlice && l.isEmpty
+
+/-! ### Go maps as association lists.  A Go map has one entry per key; an association list may repeat a key, the
+first entry wins (the bridges quantify over every list, hence over every order).  `eq` is Go's `==` on the key type:
+`strKey` for strings, an explicit identity for pointer keys. -/
+
+/-- the value stored under `k`, if any. -/
+def mapFind {κ ν : Type} (eq : κ → κ → Bool) (m : List (κ × ν)) (k : κ) : Option ν :=
+  (m.find? (fun e => eq e.1 k)).map (·.2)
+
+/-- `m[k]`: the zero value when absent. -/
+def mapGetD {κ ν : Type} (eq : κ → κ → Bool) (m : List (κ × ν)) (k : κ) (zero : ν) : ν := (mapFind eq m k).getD zero
+
+/-- the `ok` of `v, ok := m[k]`. -/
+def mapHas {κ ν : Type} (eq : κ → κ → Bool) (m : List (κ × ν)) (k : κ) : Bool := (mapFind eq m k).isSome
+
+/-- `==` on string keys. -/
+def strKey (a b : String) : Bool := a == b
+
+/-- `==` on `*NodeItem` keys (pointer identity) by explicit identity: the name of the node; nil equals only nil. -/
+def nodeItemKey (a b : Option NodeItem) : Bool :=
+  match a, b with
+  | none, none => true
+  | some x, some y => x.node.name == y.node.name
+  | _, _ => false
+
+/-- `compareWithExtendedDaemonsetSettingOverwrite(pod, withoutContainersOverwrittenByNode(edsName, replicaset, node))`
+(strategy/utils.go; library code: `DeepCopy`, `json.Unmarshal`, `apiequality.Semantic.DeepEqual` on resource lists): the
+model's `compareSettingOverwrite` on the pod's containers.  `none` = nil dereference: `node` always, `pod` when the node
+has a setting. -/
+def compareWithSettingOverwrite (pod : Option GPod) (node : Option NodeItem) : Option Bool :=
+  match node with
+  | none => none
+  | some n =>
+    match n.setting with
+    | none => some true
+    | some _ => pod.bind fun p => some (compareSettingOverwrite { (default : Pod) with containers := p.containers } n)
 
 /-- `conditions.GetIndexForConditionType`: index of the first entry of that type, −1 if absent. -/
 def condIndex (cs : List Cond) (t : String) : Int :=
